@@ -67,6 +67,7 @@ var renewSeg = map[string][]string{
 	"sc.req.gotMsg>done":                     {"reninstall", "renunlock"},
 	"sc.req.sent>sc.req.timerFired":          {},
 	"sc.req.timerFired>done":                 {"renfail", "renunlock"},
+	"sc.req.sent>done":                       {"renfail", "renunlock"}, // the connection went away while it waited
 }
 
 var respSeg = map[string][]string{
